@@ -146,6 +146,15 @@ class Checkers(Suite):
                         i = rng.randrange(n)
                         pids[i] = rng.choice([j for j in range(n) if j != i])
             out.append({"class": kind, "ids": list(range(n)), "pids": pids})
+        # arbitrary functional graphs: long cycles with tails hanging off them, several cycles, roots in between
+        for _ in range(300 if big else 60):
+            n = rng.randint(6, 14)
+            pids = [(-1 if rng.random() < 0.15 else rng.choice([j for j in range(n) if j != i])) for i in range(n)]
+            if rng.random() < 0.3:      # one big cycle through most nodes
+                cyc = list(range(n)); rng.shuffle(cyc); m = rng.randint(n // 2, n)
+                for a, b in zip(cyc[:m], cyc[1:m] + cyc[:1]):
+                    pids[a] = b
+            out.append({"class": "functional-graph", "ids": list(range(n)), "pids": pids})
         # tables whose ids are not 0-based (checkers that work on any table)
         for _ in range(60 if big else 15):
             n = rng.choice([3, 5, 9])
